@@ -9,6 +9,8 @@ CONSTANTS
   SaveAsSet = {"none"}
   Modes = {"deleted", "truncated", "unknown", "shape", "datagone"}
   MayFail = TRUE
+  PoolSet = {FALSE}
+  AssembleMode = "index"
   MaxFaults = 3
 INVARIANT RoundTrip
 INVARIANT ErrorsPersisted
